@@ -99,6 +99,16 @@ func runC02(c *Case) {
 	nst := r.Range(8, 30)
 	epn := []int{4096, 4096, 2, 3}[r.Intn(4)]
 	plan := genPlan(r, nw, nkeys, nst, 0.15, 0.1)
+	if c.Index%8 == 7 {
+		// the whole history carries write times of the year 1960 (before the epoch: negative
+		// nanosecond counts in the stored times)
+		for i := range plan.Steps {
+			if plan.Steps[i].Op == "stmt" {
+				plan.Steps[i].Stmt.T -= 1893456000
+			}
+		}
+		c.Count("histories_before_1970", 1)
+	}
 	w, err := newWorld(c, nw, epn)
 	defer w.close()
 	if err != nil {
